@@ -1,5 +1,6 @@
 import CobyqaVerif.Model.Filter
 import CobyqaVerif.Model.SpecC03
+import CobyqaVerif.Model.Run
 /-!
 Line-protocol driver: `lake env lean --run Driver.lean < requests > answers`.
 One request per line, first token = component.  Floats travel as decimal UInt64 bit patterns.
@@ -80,10 +81,76 @@ def doSpec03 (hdr : List Nat) (vals : List Nat) : String :=
         else if !meritRegular m evs then "ok merit-irregular" else "ok"
   | _ => "bad-op"
 
+/-! ## run-level traces -/
+section runs
+open Cobyqa
+
+def meritBits (pen fb vb : Nat) : X Int := keyOfBits (bits (fl fb + fl pen * fl vb))
+
+def kindOf : String → Option Kind
+  | "target" => some .target | "feasible" => some .feasible | "callback" => some .callback
+  | "maxeval" => some .maxeval | "linalg" => some .linalg | _ => none
+
+def intOf (s : String) : Option Int :=
+  if s.startsWith "-" then (s.drop 1).toNat?.map fun n => -(n : Int) else s.toNat?.map fun n => (n : Int)
+
+def parseEv (toks : List String) : Option Ev :=
+  match toks with
+  | ["sampleBegin"] => some .sampleBegin
+  | ["sampleEnd"] => some .sampleEnd
+  | ["iter"] => some .iter
+  | ["soc"] => some .soc
+  | ["geom"] => some .geom
+  | ["evalBegin", p, u] => do some (.evalBegin (← p.toNat?) (← u.toNat?))
+  | ["obj", p] => do some (.obj (← p.toNat?))
+  | ["con", j, p] => do some (.con (← j.toNat?) (← p.toNat?))
+  | ["val", f, v] => do some (.val (← f.toNat?) (← v.toNat?))
+  | ["cb", p, f] => do some (.cb (← p.toNat?) (← f.toNat?))
+  | ["cbStop"] => some .cbStop
+  | ["evalEnd", f] => do some (.evalEnd (← f.toNat?))
+  | ["evalRaise"] => some .evalRaise
+  | ["raise", k] => do some (.raise (← kindOf k))
+  | ["buildResult", p, su, st, nit] => do
+      some (.buildResult (← p.toNat?) (su = "1") (← intOf st) (← nit.toNat?))
+  | "result" :: st :: su :: nfev :: nit :: xp :: f :: v :: res :: rho :: rest => do
+      let nums ← rest.mapM String.toNat?
+      match nums with
+      | nh :: t =>
+        let fh := t.take nh
+        match t.drop nh with
+        | nc :: t2 =>
+          some (.result { status := ← intOf st, success := su = "1", nfev := ← nfev.toNat?, nit := ← nit.toNat?,
+                          xpid := ← xp.toNat?, f := ← f.toNat?, v := ← v.toNat?,
+                          resolution := keyOfBits (← res.toNat?), rhoend := keyOfBits (← rho.toNat?),
+                          funHist := fh, cvHist := t2.take nc })
+        | [] => none
+      | [] => none
+  | _ => none
+
+/-- `run boundsOk nfree maxfev maxiter npt targetbits tolbits isFeas hasCb fsize hsize store ncon | ev ; ev ; ...` -/
+def doRun (hdr : List String) (body : String) : String :=
+  match hdr.mapM String.toNat? with
+  | some [bo, nfree, maxfev, maxiter, npt, tg, tol, isf, hcb, fsize, hsize, store, ncon] =>
+    let cfg : Cfg := { boundsOk := bo = 1, nfree, maxfev, maxiter, npt, target := keyOfBits tg, tol := keyOfBits tol,
+                       isFeas := isf = 1, hasCb := hcb = 1, fsize, hsize, store := store = 1, ncon }
+    let evs := (body.splitOn ";").map fun s => parseEv ((s.splitOn " ").filter (· ≠ ""))
+    if evs.any Option.isNone then "bad-op" else
+    let evs := evs.filterMap id
+    let rec go (s : St) (i : Nat) : List Ev → String
+      | [] => if s.phase = .done then s!"ok {s.nEval} {s.nIter}" else s!"reject {i} incomplete trace"
+      | e :: es =>
+        match step meritBits cfg s e with
+        | .ok s' => go s' (i + 1) es
+        | .error m => s!"reject {i} {m}"
+    go St.init 0 evs
+  | _ => "bad-op"
+end runs
+
 def handle (line : String) : String :=
   match line.splitOn "|" with
   | [h, v] =>
     match (h.splitOn " ").filter (· ≠ "") with
+    | "run" :: args => doRun args v
     | cmd :: args =>
       match args.mapM String.toNat?, parseNats v with
       | some hdr, some vals =>
@@ -103,3 +170,4 @@ partial def loop (h : IO.FS.Stream) (out : IO.FS.Stream) : IO Unit := do
 
 def main : IO Unit := do
   loop (← IO.getStdin) (← IO.getStdout)
+
